@@ -1,9 +1,14 @@
 #!/bin/bash
 # Builds the Coq development from files on disk (offline). Idempotent.
-set -e
 cd "$(dirname "$0")"
 mkdir -p work evidence replays
-if [ -f translate/run.py ]; then PYTHONPATH=/repo /venv/bin/python -W ignore translate/run.py 2>/dev/null || true; fi
-cd coq
-coq_makefile -f _CoqProject -o Makefile >/dev/null
-timeout 3000 make -k -j16 2>&1 | grep -v -i conda | tail -5
+/venv/bin/python -W ignore - <<'PY' 2>&1 | grep -v -i conda | tail -8
+import sys
+sys.path.insert(0, '/verif')
+from harness import lib
+ok, log, failed = lib.coq_build(timeout=3000)
+print('coq build ok' if ok else 'coq build FAILED: %s' % failed)
+if not ok:
+    print(log[-3000:])
+PY
+exit 0
